@@ -261,6 +261,15 @@ def correspondence(ctx):
                 ctx.violation("decompression (%s) of a valid frame into %d >= %d bytes gives %r, expected %r" % (variant, cp, len(x), r, w), dict(kind="monitor", op=ln[:400000], variant=variant, result=r))
             elif cp < len(x) and r.startswith("ok"):
                 ctx.violation("decompression (%s) into a too-small capacity %d (< %d) reported success" % (variant, cp, len(x)), dict(kind="monitor", op=ln[:400000], variant=variant, result=r))
+    # (c4) source read discipline on VALID input: raw literals referenced in place inside the last block of an exactly sized source, short sequences
+    # section behind them, long literal runs (over-reading copies) - decoded with room to spare in the destination (fast copy paths)
+    rlines = []
+    for i in range(300 if ctx.quick() else 5000):
+        f, x = synth.rawlit_tail(rng)
+        cap = rng.choice([len(x) + 32, len(x) + 64, len(x) + 1000, 1 << 20])
+        rlines.append(("dec %d %s" if i % 3 else "bufless %d %s") % (cap, f.hex()))
+    rres = frames.parallel(run_checked, frames.split_chunks(rlines, 16))
+    ev += len(rres)
     got = frames.parallel(run_checked, frames.split_chunks(lines, 16))
     walk = frames.model_lines(["walk " + frames.hx(d[2]) for d in dinfo if d[0] == "insp"])
     wi = 0
